@@ -312,7 +312,10 @@ def write_evidence(pid, tier, coverage, wall_s, violations, assumptions=None):
         "wall_s": round(wall_s, 2),
         "violations": violations,
     }
-    with open(os.path.join(EVIDENCE_DIR, f"{pid}.json"), "w") as f:
+    # runs against a scratch copy of the repository (seeded-change testing) must never overwrite the evidence of /repo
+    d = EVIDENCE_DIR if os.path.realpath(REPO) == os.path.realpath("/repo") else os.path.join(VERIF, "replays", "evidence_scratch")
+    os.makedirs(d, exist_ok=True)
+    with open(os.path.join(d, f"{pid}.json"), "w") as f:
         json.dump(ev, f, indent=1, default=str)
 
 
